@@ -87,6 +87,12 @@ CLAIMED.update({
    technique='Coq proof (real analysis with Coquelicot + refinement of the solver model to the linear recurrence by induction over histories); bit-exact correspondence; convergence search on the implementation', ref='6 C04'),
 })
 
+CLAIMED.update({
+ 'C07': dict(text='_partial by design of what could be mechanised: machine-checked over the reals that every operation of the regenerated quantity layer the models use (number*quantity, quantity*number, /number, +, -, quantity*quantity, quantity/quantity, same-kind ratio, conversion) is a congruence for "same kind family and same SI magnitude", that every comparison gives the same answer for re-expressed operands whenever the SI magnitudes differ by more than the tolerance band of the larger unit (the formal content of the property\'s exclusion clause), and that the motor law, the step count of a run and the cos/tan of an angle depend on SI magnitudes only. The lifting of these congruences through a whole run is not mechanised.',
+   note='Whole-run coverage comes from (a) the bit-exact correspondences of all four model families (solver, motor, relations, gears), whose generators draw every input quantity in a random unit of its kind (so unit-dependent behaviour of the code that the unit-faithful models do not share is a disagreement; this is how D1/D2/D7 were found before they were repaired), and (b) the metamorphic search on the implementation: all input quantities of a scenario re-expressed in other units (unit lists cycled), SI outputs compared at 1e-6 relative, pairs with a discrete decision within rounding of its threshold skipped. Known finding D5 (absolute comparison tolerance in the left unit) makes equal helix angles / modules in different units compare as different: reported as KNOWN-FINDING, not repaired.',
+   technique='Coq proof of SI-congruence of the regenerated quantity layer and of formula-level components; bit-exact correspondences with random units; metamorphic search', ref='6 C07'),
+})
+
 PENDING = {}
 ALL = ['C%02d' % i for i in range(1, 21)]
 
